@@ -137,6 +137,8 @@ def Phase (g : Ghost) (secured smE smR : Bool) (state : CState) : SysH → Prop
 structure Par where
   x : Option Nat := none
   y : Option Nat := none
+  xs : Bool := true
+  mb : Nat := 0
   w : Bool := false
   sb : CState := .disconnected
   pb : PSt := .closed
@@ -150,13 +152,15 @@ structure InvF (p : Par) (state : CState) (pst : PSt) (resetParser isRaw : Bool)
   rpB : resetParser = true → p.rpb = true
   rp : pst = .fresh → state = .connected → resetParser = false
 
-structure InvH (x y : Option Nat) (state : CState) (secured smE smR : Bool) (pst : PSt)
+structure InvH (x y : Option Nat) (xs : Bool) (mb : Nat) (state : CState) (secured smE smR : Bool) (pst : PSt)
     (resetParser : Bool) (oh : OpenH) (isRaw : Bool)
     (hk : List HK) (ik : List HK) (tk : List TK) (nextUid : Nat) (g : Ghost) : Prop where
   uidH : ∀ k ∈ hk ++ ik, k.1 < nextUid
+  nd : ((hk ++ ik).map (·.1)).Nodup
   uidT : ∀ k ∈ tk, k.1 < nextUid
   uidX : ∀ u, x = some u → u < nextUid
   uidY : ∀ u, y = some u → u < nextUid
+  xsOk : ∀ u, x = some u → (xs = true → ∀ k ∈ ik, k.1 ≠ u) ∧ (xs = false → ∀ k ∈ hk, k.1 ≠ u)
   userH : ∀ k ∈ hk ++ ik, (k.2.1 = .userAll ↔ k.2.2 = true)
   userT : ∀ k ∈ tk, (k.2.1 = .userTimed ↔ k.2.2 = true)
   idk : ∀ k ∈ ik, k.2.1 = .sys .bind ∨ k.2.1 = .sys .session ∨ k.2.1 = .sys .legacy
@@ -171,6 +175,8 @@ structure InvH (x y : Option Nat) (state : CState) (secured smE smR : Bool) (pst
     g.authOk = false ∧ ∃ k' ∈ hk ++ ik, k'.2.1 = .sys .features ∧ x ≠ some k'.1
   cgH : state = .connecting → ∀ k ∈ hk ++ ik, ¬ negK k
   raw : state ≠ .disconnected → isRaw = true → oh = .stub ∧ ∀ k ∈ hk ++ ik, ¬ negK k
+  mbN : mb ≤ nextUid
+  lv : state = .disconnected → ∀ k ∈ hk ++ ik, negK k → x ≠ some k.1 → mb ≤ k.1
 
 /-! ### the invariant -/
 
@@ -180,7 +186,7 @@ structure Inv (jid : Option Bytes) (U : Item → Prop) (NR : Prop) (p : Par) (c 
   e : InvE c.g c.evs
   gg : InvG c.state c.negotiated c.secured c.hasTls c.saslSupport c.compSupported c.bindRequired
     c.sessionRequired c.sm.support c.sm.bind c.sm.enabled c.sm.resume c.g
-  h : InvH p.x p.y c.state c.secured c.sm.enabled c.sm.resume c.pst c.resetParser c.openHandler c.isRaw
+  h : InvH p.x p.y p.xs p.mb c.state c.secured c.sm.enabled c.sm.resume c.pst c.resetParser c.openHandler c.isRaw
     (c.handlers.map hkey) (c.idHandlers.map hkey) (c.timed.map tkey) c.nextUid c.g
   f : InvF p c.state c.pst c.resetParser c.isRaw
   ts : c.tlsSupport = false
@@ -191,30 +197,40 @@ def PendNil (x : Option Nat) (c : Conn) : Prop :=
 
 /-! ### key-level lemmas on `InvH` -/
 
-theorem InvH.addCore {x y st sec smE smR pst rp oh raw hk ik tk n g}
-    (h : InvH x y st sec smE smR pst rp oh raw hk ik tk n g) (fn : HFun) (usr : Bool) (hk' ik' : List HK)
+theorem InvH.addCore {x y xs mb st sec smE smR pst rp oh raw hk ik tk n g}
+    (h : InvH x y xs mb st sec smE smR pst rp oh raw hk ik tk n g) (fn : HFun) (usr : Bool) (hk' ik' : List HK)
     (mem : ∀ k, k ∈ hk' ++ ik' ↔ k ∈ hk ++ ik ∨ k = (n, fn, usr))
-    (memI : ∀ k ∈ ik', k ∈ ik ∨ (k.2.1 = .sys .bind ∨ k.2.1 = .sys .session ∨ k.2.1 = .sys .legacy))
+    (memH : ∀ k ∈ hk', k ∈ hk ∨ k = (n, fn, usr))
+    (memI : ∀ k ∈ ik', k ∈ ik ∨ (k = (n, fn, usr) ∧ (k.2.1 = .sys .bind ∨ k.2.1 = .sys .session ∨ k.2.1 = .sys .legacy)))
+    (hnd : ((hk' ++ ik').map (·.1)).Nodup)
     (hu : fn = .userAll ↔ usr = true)
     (hneg : ∀ s, fn = .sys s → s ≠ .error →
       (∀ k ∈ hk ++ ik, negK k → x = some k.1) ∧ g.notifiedConnect = false ∧ Phase g sec smE smR st s ∧
       rp = false ∧ pst ≠ .fresh ∧ st ≠ .connecting ∧ (st ≠ .disconnected → raw = false)) :
-    InvH x y st sec smE smR pst rp oh raw hk' ik' tk (n + 1) g := by
+    InvH x y xs mb st sec smE smR pst rp oh raw hk' ik' tk (n + 1) g := by
   have negNew : negK (n, fn, usr) → ∃ s, fn = .sys s ∧ s ≠ .error := fun a => a
   constructor
   · intro k hk'; rcases (mem k).1 hk' with a | a
     · exact Nat.lt_succ_of_lt (h.uidH k a)
     · subst a; exact Nat.lt_succ_self _
+  · exact hnd
   · intro k a; exact Nat.lt_succ_of_lt (h.uidT k a)
   · intro u a; exact Nat.lt_succ_of_lt (h.uidX u a)
   · intro u a; exact Nat.lt_succ_of_lt (h.uidY u a)
+  · intro u a; refine ⟨fun e k hk1 => ?_, fun e k hk1 => ?_⟩
+    · rcases memI k hk1 with b | b
+      · exact ((h.xsOk u a).1 e) k b
+      · rw [b.1]; exact Nat.ne_of_gt (h.uidX u a)
+    · rcases memH k hk1 with b | b
+      · exact ((h.xsOk u a).2 e) k b
+      · rw [b]; exact Nat.ne_of_gt (h.uidX u a)
   · intro k hk'; rcases (mem k).1 hk' with a | a
     · exact h.userH k a
     · subst a; exact hu
   · exact h.userT
   · intro k a; rcases memI k a with b | b
     · exact h.idk k b
-    · exact b
+    · exact b.2
   · intro k1 h1 k2 h2 n1 n2 e1 e2
     rcases (mem k1).1 h1 with a | a <;> rcases (mem k2).1 h2 with b | b
     · exact h.one k1 a k2 b n1 n2 e1 e2
@@ -245,43 +261,66 @@ theorem InvH.addCore {x y st sec smE smR pst rp oh raw hk ik tk n g}
     · exact (h.raw hd hr).2 k a nk
     · subst a; obtain ⟨s, hs, hs'⟩ := negNew nk
       have := (hneg s hs hs').2.2.2.2.2.2 hd; rw [this] at hr; cases hr
+  · exact Nat.le_succ_of_le h.mbN
+  · intro hd k hk' nk e; rcases (mem k).1 hk' with a | a
+    · exact h.lv hd k a nk e
+    · subst a; exact h.mbN
 
-theorem InvH.addH {x y st sec smE smR pst rp oh raw hk ik tk n g}
-    (h : InvH x y st sec smE smR pst rp oh raw hk ik tk n g) (fn : HFun) (usr : Bool)
+theorem InvH.addH {x y xs mb st sec smE smR pst rp oh raw hk ik tk n g}
+    (h : InvH x y xs mb st sec smE smR pst rp oh raw hk ik tk n g) (fn : HFun) (usr : Bool)
     (hu : fn = .userAll ↔ usr = true)
     (hneg : ∀ s, fn = .sys s → s ≠ .error →
       (∀ k ∈ hk ++ ik, negK k → x = some k.1) ∧ g.notifiedConnect = false ∧ Phase g sec smE smR st s ∧
       rp = false ∧ pst ≠ .fresh ∧ st ≠ .connecting ∧ (st ≠ .disconnected → raw = false)) :
-    InvH x y st sec smE smR pst rp oh raw (hk ++ [(n, fn, usr)]) ik tk (n + 1) g := by
-  refine h.addCore fn usr _ _ ?_ (fun k a => Or.inl a) hu hneg
-  intro k; simp only [List.mem_append, List.mem_singleton]; constructor
-  · rintro ((a | a) | a) <;> simp [a]
-  · rintro ((a | a) | a) <;> simp [a]
+    InvH x y xs mb st sec smE smR pst rp oh raw (hk ++ [(n, fn, usr)]) ik tk (n + 1) g := by
+  refine h.addCore fn usr _ _ ?_ ?_ (fun k a => Or.inl a) ?_ hu hneg
+  · intro k; simp only [List.mem_append, List.mem_singleton]; constructor
+    · rintro ((a | a) | a) <;> simp [a]
+    · rintro ((a | a) | a) <;> simp [a]
+  · intro k a; simpa only [List.mem_append, List.mem_singleton] using a
+  · have nd := h.nd
+    simp only [List.map_append, List.map_cons, List.map_nil, List.nodup_append, List.mem_append,
+      List.mem_map, List.mem_singleton] at nd ⊢
+    have fresh : ∀ k ∈ hk ++ ik, k.1 ≠ n := fun k a => Nat.ne_of_lt (h.uidH k a)
+    refine ⟨⟨nd.1, (by simp), ?_⟩, nd.2.1, ?_⟩
+    · rintro a ⟨k, hk1, rfl⟩ b' rfl; exact fresh k (List.mem_append.2 (Or.inl hk1))
+    · rintro a (⟨k, hk1, rfl⟩ | rfl) b' ⟨k', hk2, rfl⟩
+      · exact nd.2.2 _ ⟨k, hk1, rfl⟩ _ ⟨k', hk2, rfl⟩
+      · exact (fresh k' (List.mem_append.2 (Or.inr hk2))).symm
 
-theorem InvH.addI {x y st sec smE smR pst rp oh raw hk ik tk n g}
-    (h : InvH x y st sec smE smR pst rp oh raw hk ik tk n g) (fn : HFun)
+theorem InvH.addI {x y xs mb st sec smE smR pst rp oh raw hk ik tk n g}
+    (h : InvH x y xs mb st sec smE smR pst rp oh raw hk ik tk n g) (fn : HFun)
     (hk3 : fn = .sys .bind ∨ fn = .sys .session ∨ fn = .sys .legacy)
     (hneg : ∀ s, fn = .sys s → s ≠ .error →
       (∀ k ∈ hk ++ ik, negK k → x = some k.1) ∧ g.notifiedConnect = false ∧ Phase g sec smE smR st s ∧
       rp = false ∧ pst ≠ .fresh ∧ st ≠ .connecting ∧ (st ≠ .disconnected → raw = false)) :
-    InvH x y st sec smE smR pst rp oh raw hk (ik ++ [(n, fn, false)]) tk (n + 1) g := by
-  refine h.addCore fn false _ _ ?_ ?_ ?_ hneg
+    InvH x y xs mb st sec smE smR pst rp oh raw hk (ik ++ [(n, fn, false)]) tk (n + 1) g := by
+  refine h.addCore fn false _ _ ?_ (fun k a => Or.inl a) ?_ ?_ ?_ hneg
   · intro k; simp only [List.mem_append, List.mem_singleton]; constructor
     · rintro (a | a | a) <;> simp [a]
     · rintro ((a | a) | a) <;> simp [a]
   · intro k a; simp only [List.mem_append, List.mem_singleton] at a
     rcases a with a | a
     · exact Or.inl a
-    · subst a; exact Or.inr hk3
+    · subst a; exact Or.inr ⟨rfl, hk3⟩
+  · have nd := h.nd
+    simp only [List.map_append, List.map_cons, List.map_nil, List.nodup_append, List.mem_append,
+      List.mem_map, List.mem_singleton] at nd ⊢
+    have fresh : ∀ k ∈ hk ++ ik, k.1 ≠ n := fun k a => Nat.ne_of_lt (h.uidH k a)
+    refine ⟨nd.1, ⟨nd.2.1, (by simp), ?_⟩, ?_⟩
+    · rintro a ⟨k, hk1, rfl⟩ b' rfl; exact fresh k (List.mem_append.2 (Or.inr hk1))
+    · rintro a ⟨k, hk1, rfl⟩ b' (⟨k', hk2, rfl⟩ | rfl)
+      · exact nd.2.2 _ ⟨k, hk1, rfl⟩ _ ⟨k', hk2, rfl⟩
+      · exact fresh k (List.mem_append.2 (Or.inl hk1))
   · rcases hk3 with a | a | a <;> simp [a]
 
-theorem InvH.addT {x y st sec smE smR pst rp oh raw hk ik tk n g}
-    (h : InvH x y st sec smE smR pst rp oh raw hk ik tk n g) (fn : TFun) (usr : Bool)
+theorem InvH.addT {x y xs mb st sec smE smR pst rp oh raw hk ik tk n g}
+    (h : InvH x y xs mb st sec smE smR pst rp oh raw hk ik tk n g) (fn : TFun) (usr : Bool)
     (hu : fn = .userTimed ↔ usr = true)
     (hmf : fn = .missingFeatures →
       g.authOk = false ∧ ∃ k' ∈ hk ++ ik, k'.2.1 = .sys .features ∧ x ≠ some k'.1) :
-    InvH x y st sec smE smR pst rp oh raw hk ik ((n, fn, usr) :: tk) (n + 1) g := by
-  refine { h with uidH := ?_, uidT := ?_, uidX := ?_, uidY := ?_, userT := ?_, t1 := ?_ }
+    InvH x y xs mb st sec smE smR pst rp oh raw hk ik ((n, fn, usr) :: tk) (n + 1) g := by
+  refine { h with uidH := ?_, uidT := ?_, uidX := ?_, uidY := ?_, userT := ?_, t1 := ?_, mbN := Nat.le_succ_of_le h.mbN }
   · intro k a; exact Nat.lt_succ_of_lt (h.uidH k a)
   · intro k a; rcases List.mem_cons.1 a with a | a
     · subst a; exact Nat.lt_succ_self _
@@ -295,29 +334,29 @@ theorem InvH.addT {x y st sec smE smR pst rp oh raw hk ik tk n g}
     · subst a; exact hmf b
     · exact h.t1 k a b c
 
-theorem InvH.subT {x y st sec smE smR pst rp oh raw hk ik tk tk' n g}
-    (h : InvH x y st sec smE smR pst rp oh raw hk ik tk n g) (sub : ∀ k ∈ tk', k ∈ tk) :
-    InvH x y st sec smE smR pst rp oh raw hk ik tk' n g :=
+theorem InvH.subT {x y xs mb st sec smE smR pst rp oh raw hk ik tk tk' n g}
+    (h : InvH x y xs mb st sec smE smR pst rp oh raw hk ik tk n g) (sub : ∀ k ∈ tk', k ∈ tk) :
+    InvH x y xs mb st sec smE smR pst rp oh raw hk ik tk' n g :=
   { h with uidT := fun k a => h.uidT k (sub k a), userT := fun k a => h.userT k (sub k a),
            t1 := fun k a => h.t1 k (sub k a) }
 
 /-- the handler with uid `u` that was running is removed -/
-theorem InvH.fire {y st sec smE smR pst rp oh raw hk ik tk n g} (u : Nat)
-    (h : InvH (some u) y st sec smE smR pst rp oh raw hk ik tk n g) :
-    InvH none y st sec smE smR pst rp oh raw (hk.filter (·.1 ≠ u)) (ik.filter (·.1 ≠ u)) tk n g := by
-  have mem : ∀ k, k ∈ hk.filter (·.1 ≠ u) ++ ik.filter (·.1 ≠ u) ↔ k ∈ hk ++ ik ∧ k.1 ≠ u := by
-    intro k; simp only [List.mem_append, List.mem_filter, decide_eq_true_eq]; constructor
-    · rintro (⟨a, b⟩ | ⟨a, b⟩) <;> simp [a, b]
-    · rintro ⟨a | a, b⟩ <;> simp [a, b]
+theorem InvH.fireCore {y xs mb st sec smE smR pst rp oh raw hk ik tk n g} (u : Nat)
+    (h : InvH (some u) y xs mb st sec smE smR pst rp oh raw hk ik tk n g) (hk' ik' : List HK)
+    (mem : ∀ k, k ∈ hk' ++ ik' ↔ k ∈ hk ++ ik ∧ k.1 ≠ u) (memI : ∀ k ∈ ik', k ∈ ik)
+    (hnd : ((hk' ++ ik').map (·.1)).Nodup) (xs' : Bool) :
+    InvH none y xs' mb st sec smE smR pst rp oh raw hk' ik' tk n g := by
   have ne : ∀ k : HK, k.1 ≠ u → some u ≠ some k.1 := fun k a b => a (Option.some.inj b).symm
   constructor
   · intro k a; exact h.uidH k ((mem k).1 a).1
+  · exact hnd
   · exact h.uidT
   · intro u' a; cases a
   · exact h.uidY
+  · intro u' a; cases a
   · intro k a; exact h.userH k ((mem k).1 a).1
   · exact h.userT
-  · intro k a; exact h.idk k (List.mem_filter.1 a).1
+  · intro k a; exact h.idk k (memI k a)
   · intro k1 a1 k2 a2 n1 n2 _ _
     exact h.one k1 ((mem k1).1 a1).1 k2 ((mem k2).1 a2).1 n1 n2 (ne k1 ((mem k1).1 a1).2) (ne k2 ((mem k2).1 a2).2)
   · intro k a s hs hs' _
@@ -330,11 +369,41 @@ theorem InvH.fire {y st sec smE smR pst rp oh raw hk ik tk n g} (u : Nat)
     refine ⟨h1, k', (mem k').2 ⟨h2, fun e => h4 (by rw [e])⟩, h3, fun e => by cases e⟩
   · intro hc k a; exact h.cgH hc k ((mem k).1 a).1
   · intro hd hr; exact ⟨(h.raw hd hr).1, fun k a => (h.raw hd hr).2 k ((mem k).1 a).1⟩
+  · exact h.mbN
+  · intro hd k a nk _; exact h.lv hd k ((mem k).1 a).1 nk (ne k ((mem k).1 a).2)
+
+/-- a regular stanza handler finished -/
+theorem InvH.fireH {y mb st sec smE smR pst rp oh raw hk ik tk n g} (u : Nat)
+    (h : InvH (some u) y true mb st sec smE smR pst rp oh raw hk ik tk n g) (xs' : Bool) :
+    InvH none y xs' mb st sec smE smR pst rp oh raw (hk.filter (·.1 ≠ u)) ik tk n g := by
+  refine h.fireCore u _ _ ?_ (fun k a => a) ?_ xs'
+  · intro k; simp only [List.mem_append, List.mem_filter, decide_eq_true_eq]; constructor
+    · rintro (⟨a, b⟩ | a)
+      · exact ⟨Or.inl a, b⟩
+      · exact ⟨Or.inr a, (h.xsOk u rfl).1 rfl k a⟩
+    · rintro ⟨a | a, b⟩
+      · exact Or.inl ⟨a, b⟩
+      · exact Or.inr a
+  · exact (((List.filter_sublist.append (List.Sublist.refl _)).map _).nodup h.nd)
+
+/-- an id handler finished -/
+theorem InvH.fireI {y mb st sec smE smR pst rp oh raw hk ik tk n g} (u : Nat)
+    (h : InvH (some u) y false mb st sec smE smR pst rp oh raw hk ik tk n g) (xs' : Bool) :
+    InvH none y xs' mb st sec smE smR pst rp oh raw hk (ik.filter (·.1 ≠ u)) tk n g := by
+  refine h.fireCore u _ _ ?_ (fun k a => (List.mem_filter.1 a).1) ?_ xs'
+  · intro k; simp only [List.mem_append, List.mem_filter, decide_eq_true_eq]; constructor
+    · rintro (a | ⟨a, b⟩)
+      · exact ⟨Or.inl a, (h.xsOk u rfl).2 rfl k a⟩
+      · exact ⟨Or.inr a, b⟩
+    · rintro ⟨a | a, b⟩
+      · exact Or.inl a
+      · exact Or.inr ⟨a, b⟩
+  · exact ((((List.Sublist.refl _).append List.filter_sublist).map _).nodup h.nd)
 
 /-- the timer with uid `v` that was running is removed -/
-theorem InvH.fireT {x st sec smE smR pst rp oh raw hk ik tk n g} (v : Nat)
-    (h : InvH x (some v) st sec smE smR pst rp oh raw hk ik tk n g) :
-    InvH x none st sec smE smR pst rp oh raw hk ik (tk.filter (·.1 ≠ v)) n g := by
+theorem InvH.fireT {x xs mb st sec smE smR pst rp oh raw hk ik tk n g} (v : Nat)
+    (h : InvH x (some v) xs mb st sec smE smR pst rp oh raw hk ik tk n g) :
+    InvH x none xs mb st sec smE smR pst rp oh raw hk ik (tk.filter (·.1 ≠ v)) n g := by
   refine { h with uidT := ?_, uidY := ?_, userT := ?_, t1 := ?_ }
   · intro k a; exact h.uidT k (List.mem_filter.1 a).1
   · intro u a; cases a
@@ -343,21 +412,23 @@ theorem InvH.fireT {x st sec smE smR pst rp oh raw hk ik tk n g} (v : Nat)
     exact h.t1 k this.1 b (fun e => by have := this.2; simp [(Option.some.inj e)] at this)
 
 /-- start running the pending handler `u` (no `missingFeatures` timer may be live) -/
-theorem InvH.enter {y st sec smE smR pst rp oh raw hk ik tk n g} (u : Nat)
-    (h : InvH none y st sec smE smR pst rp oh raw hk ik tk n g) (hu : u < n)
-    (hnt : ∀ k ∈ tk, k.2.1 = .missingFeatures → y = some k.1) :
-    InvH (some u) y st sec smE smR pst rp oh raw hk ik tk n g := by
-  refine { h with uidX := ?_, one := ?_, phase := ?_, fr := ?_, t1 := ?_ }
+theorem InvH.enter {y xs mb st sec smE smR pst rp oh raw hk ik tk n g} (u : Nat)
+    (h : InvH none y xs mb st sec smE smR pst rp oh raw hk ik tk n g) (hu : u < n)
+    (hnt : ∀ k ∈ tk, k.2.1 = .missingFeatures → y = some k.1) (xs' : Bool)
+    (hxs : (xs' = true → ∀ k ∈ ik, k.1 ≠ u) ∧ (xs' = false → ∀ k ∈ hk, k.1 ≠ u)) :
+    InvH (some u) y xs' mb st sec smE smR pst rp oh raw hk ik tk n g := by
+  refine { h with uidX := ?_, xsOk := ?_, one := ?_, phase := ?_, fr := ?_, t1 := ?_, lv := fun hd k a nk _ => h.lv hd k a nk (by simp) }
   · intro u' a; cases a; exact hu
+  · intro u' a; cases a; exact hxs
   · intro k1 a1 k2 a2 n1 n2 _ _; exact h.one k1 a1 k2 a2 n1 n2 (by simp) (by simp)
   · intro k a s hs hs' _; exact h.phase k a s hs hs' (by simp)
   · intro hf; refine ⟨?_, (h.fr hf).2⟩
     intro k a nk; exact absurd ((h.fr hf).1 k a nk) (by simp)
   · intro k a b c; exact absurd (hnt k a b) c
 
-theorem InvH.enterT {x st sec smE smR pst rp oh raw hk ik tk n g} (v : Nat)
-    (h : InvH x none st sec smE smR pst rp oh raw hk ik tk n g) (hv : v < n) :
-    InvH x (some v) st sec smE smR pst rp oh raw hk ik tk n g := by
+theorem InvH.enterT {x xs mb st sec smE smR pst rp oh raw hk ik tk n g} (v : Nat)
+    (h : InvH x none xs mb st sec smE smR pst rp oh raw hk ik tk n g) (hv : v < n) :
+    InvH x (some v) xs mb st sec smE smR pst rp oh raw hk ik tk n g := by
   refine { h with uidY := ?_, t1 := ?_ }
   · intro u' a; cases a; exact hv
   · intro k a b _; exact h.t1 k a b (by simp)
